@@ -42,11 +42,15 @@ def strategy(tier):
         "t": st.just("bloom"), "geom": geom, "hash": gen.hash_name_st(), "pool": gen.pool_st(2, 10),
         "ka": st.sampled_from(["bloom", "ondisk"]), "kb": st.sampled_from(["bloom", "ondisk"]),
         "sa": so.stream_st(False), "sb": so.stream_st(False), "sx": so.stream_st(False, max_len=4), "chain": st.sampled_from([0, 0, 1, 2]),
+        "va": st.sampled_from(so.OPERAND_VARIANTS), "vb": st.sampled_from(so.OPERAND_VARIANTS), "nudge": st.sampled_from([0, 0, 0, 1]),
+        "frac": st.sampled_from([0, 0, 0, 0, 0, 0.5, 0.25]),
         "p2": st.one_of(st.none(), st.fixed_dictionaries({"ca": st.booleans(), "cb": st.booleans(), "sa2": so.stream_st(False, max_len=5),
                                                            "sb2": so.stream_st(False, max_len=5)}))})
     cb = st.fixed_dictionaries({
         "t": st.just("cbloom"), "geom": geom, "hash": gen.hash_name_st(), "pool": gen.pool_st(2, 10),
         "sa": so.stream_st(True), "sb": so.stream_st(True), "sx": so.stream_st(True, max_len=4), "chain": st.sampled_from([0, 0, 1, 2]),
+        "va": st.sampled_from(["same", "same", "reload", "hex"]), "vb": st.sampled_from(["same", "same", "reload", "hex"]),
+        "nudge": st.sampled_from([0, 0, 0, 1]), "frac": st.sampled_from([0, 0, 0, 0, 0, 0.5, 0.25]),
         "p2": st.one_of(st.none(), st.fixed_dictionaries({"ca": st.booleans(), "cb": st.booleans(), "sa2": so.stream_st(True, max_len=5),
                                                            "sb2": so.stream_st(True, max_len=5)}))})
     cms = st.fixed_dictionaries({
@@ -74,6 +78,22 @@ def run_case(case, ctx):
         if t in ("bloom", "cbloom"):
             est, fpr = case["geom"]
             ka, kb = (case["ka"], case["kb"]) if t == "bloom" else ("counting", "counting")
+            frac, va, vb = case.get("frac") or 0, case.get("va", "same"), case.get("vb", "same")
+            if frac:
+                # a fractional est_elements (len(items) * 1.5) is accepted by the in-memory constructors and sizes the filter from
+                # the fraction; such filters cannot be exported on the pinned tree, so only the in-memory operations are judged
+                est = est + frac
+                if t == "bloom":
+                    ka = kb = "bloom"
+                va = va if va == "zero" else "same"
+                vb = vb if vb == "zero" else "same"
+                ctx.feat("fractional_est_elements")
+            fpr_b = fpr
+            if case.get("nudge"):
+                p2_ = so.same_geometry_rate(est, fpr)
+                if p2_ is not None:
+                    fpr_b = p2_
+                    ctx.feat("operands_same_geometry_different_nominal_rate")
             try:
                 A = so.make_bloom(ctx, ka, est, fpr, case["hash"], "a")
             except Exception as e:  # noqa
@@ -83,9 +103,12 @@ def run_case(case, ctx):
                 ctx.feat("rejected_params")
                 return
             objs.append(A)
-            B = so.make_bloom(ctx, kb, est, fpr, case["hash"], "b")
+            B = so.make_bloom(ctx, kb, est, fpr_b, case["hash"], "b")
             objs.append(B)
             S = so.make_bloom(ctx, "counting" if t == "cbloom" else "bloom", est, fpr, case["hash"], "s")
+            ha2 = so.second_handle(ctx, A, ka, case["hash"]) if va == "handle2" else None
+            hb2 = so.second_handle(ctx, B, kb, case["hash"]) if vb == "handle2" else None
+            objs.extend(h for h in (ha2, hb2) if h is not None)
             so.feed(A, ka, pool, ra)
             so.feed(B, kb, pool, rb)
             so.feed(S, "counting" if t == "cbloom" else "bloom", pool, ra + rb + (rx if chain else []))
@@ -104,6 +127,23 @@ def run_case(case, ctx):
                 ctx.feat("chained_product_operand")
                 if (A if chain == 1 else B).elements_added == 0 and rx + (ra if chain == 1 else rb):
                     ctx.feat("product_operand_with_zero_estimate")
+            # the operands as they reach the operation in real use (reloaded, reopened on disk, counter reassigned, second handle)
+            if ha2 is not None and chain != 1:
+                A = ha2
+                ctx.feat("operand_second_live_handle")
+            elif va not in ("same", "handle2"):
+                A, ka, extra = so.operand_variant(ctx, A, ka, va, case["hash"], "a")
+                objs.extend(extra)
+                ctx.feat("operand_" + va)
+            if hb2 is not None and chain != 2:
+                B = hb2
+                ctx.feat("operand_second_live_handle")
+            elif vb not in ("same", "handle2"):
+                B, kb, extra = so.operand_variant(ctx, B, kb, vb, case["hash"], "b")
+                objs.extend(extra)
+                ctx.feat("operand_" + vb)
+            if kb == "ondisk" and B.elements_added == 0 and any(so.cells(B, kb)):
+                ctx.feat("ondisk_argument_zero_count_bits_set")
             ca, cb_ = so.cells(A, ka), so.cells(B, kb)
             U = ctx.call(noexc, A.union, B)
             ctx.check(noexc, U is not None, "union of same-geometry same-hash operands returned None")
